@@ -42,6 +42,9 @@ def values(ctx, r, quick):
     return out
 
 
+SUFFIXES = [b"\x00", b"\n", b"\r\n", b" ", b"\xff", b"\t", b"\x00\x00\x00\x00", b"\n\n", b"\x00\n", b"="]
+
+
 def run(env):
     r = env.rng
     items = []
@@ -55,6 +58,7 @@ def run(env):
     o1 = env.harness(st1)
     st2 = []
     seen = {}
+    nseen = {}
     for c, o in zip(st1, o1):
         ctx = c["ctx"]; kind = c["_kind"]
         if kind != "vec_cp" or True:
@@ -71,7 +75,12 @@ def run(env):
         if kind == "sk":
             want = None
         st2.append({"ctx": ctx, "op": "de_" + kind, "args": [o], "_want": want, "_src": c, "tag": "roundtrip"})
-        st2.append({"ctx": ctx, "op": "de_" + kind, "args": [hexb(b + b"\x00")], "_err": True, "_src": c, "tag": "appended"})
+        # appended bytes: a zero, text-file line terminators, blanks, 0xff, a whole extra length prefix, the encoding twice
+        nseen[(ctx, kind)] = nseen.get((ctx, kind), 0) + 1
+        sfx = SUFFIXES + [b]
+        for suf in (sfx if nseen[(ctx, kind)] <= 2 and not ctx.endswith("2048") else [b"\x00", sfx[nseen[(ctx, kind)] % len(sfx)]]):
+            if suf:
+                st2.append({"ctx": ctx, "op": "de_" + kind, "args": [hexb(b + suf)], "_err": True, "_src": c, "tag": "appended"})
         if len(b) > 0:
             st2.append({"ctx": ctx, "op": "de_" + kind, "args": [hexb(b[:-1])], "_err": True, "_src": c, "tag": "truncated"})
         if len(b) > 4 and not (ctx.endswith("2048") and env.quick):
